@@ -97,32 +97,48 @@ def gen_consts():
     yield "FormatterConsts.lean", t
 
 
+META = "\\.^$*+?{}[]()|"
+
+
 def parse_particles(pattern: str):
-    """'(a|b(?![xy])|cd|...)' -> [(key, lookahead chars)] ; raises if the pattern has any other shape"""
+    """'(a|b(?![xy])|cd|...)' -> ([(key, look-ahead chars)], [irregular particles]).
+    A particle is *regular* when it is a literal key optionally followed by a negative look-ahead for ONE code point out of a
+    set: `(?![xy])`, or `(?!x)` (the same thing as `(?![x])`). Anything else (e.g. `(?!xy)`, which only rejects the two-code-point
+    sequence) cannot be expressed by the model's `Alt`; it is kept with an empty look-ahead set and recorded as irregular,
+    which makes the table theorems of Props/C15 fail instead of stopping the translator."""
+    irregular = []
     if not (pattern.startswith("(") and pattern.endswith(")")):
-        raise RuntimeError("entity regex: unexpected outer shape")
+        return [], [pattern[:40]]
     out = []
     for part in pattern[1:-1].split("|"):
-        m = re.fullmatch(r"(?s)(.+?)(?:\(\?!\[(.+)\]\))?", part)
-        if not m:
-            raise RuntimeError(f"entity regex: unexpected particle {part!r}")
-        key, la = m.group(1), m.group(2) or ""
-        if any(ch in "\\.^$*+?{}[]()|" for ch in key + la):
-            raise RuntimeError(f"entity regex: metacharacter in particle {part!r}")
+        m = re.fullmatch(r"(?s)(.+?)\(\?!(.+)\)", part)
+        if m:
+            key, body = m.group(1), m.group(2)
+            if len(body) >= 3 and body[0] == "[" and body[-1] == "]":
+                la = body[1:-1]
+            elif len(body) == 1:
+                la = body
+            else:
+                la = ""
+                irregular.append(part)
+        else:
+            key, la = part, ""
+        if not key or any(ch in META for ch in key + la):
+            irregular.append(part)
         out.append((key, la))
-    return out
+    return out, irregular
 
 
 def html_alternatives():
     from bs4.dammit import EntitySubstitution as ES
-    parts = parse_particles(ES.CHARACTER_TO_HTML_ENTITY_WITH_AMPERSAND_RE.pattern)
+    parts, irregular = parse_particles(ES.CHARACTER_TO_HTML_ENTITY_WITH_AMPERSAND_RE.pattern)
     alts = []
     for key, la in parts:
         ent = ES.CHARACTER_TO_HTML_ENTITY.get(key)  # _substitute_html_entity
         repl = "&%s;" % ent if ent is not None else "&amp;%s;" % key
         alts.append((key, "".join(sorted(la)), repl))
     alts.sort(key=lambda a: [ord(c) for c in a[0]])
-    return alts
+    return alts, sorted(set(irregular))
 
 
 def right_nested_def(name: str, ty: str, items: list, chunk: int = 32) -> str:
@@ -152,11 +168,13 @@ def gen_formatter():
         t += f"def {nm} : Args := {args_term(cls)}\n"
     lang_default = inspect.signature(Formatter.__init__).parameters["language"].default
     t += f"def formatterDefaultLanguage : Option Lang := {'none' if not lang_default else '(some %s)' % lang_id(lang_default)}\n"
-    alts = html_alternatives()
+    alts, irregular = html_alternatives()
     t += ("/-- alternatives of `CHARACTER_TO_HTML_ENTITY_WITH_AMPERSAND_RE` parsed back from the live pattern, sorted by key "
           f"({len(alts)} alternatives, {sum(1 for a in alts if a[1])} with a negative look-ahead, "
           f"{sum(1 for a in alts if len(a[0]) > 1)} longer than one code point) -/\n")
     t += right_nested_def("htmlAlts", "Alt", [f"⟨{lean_str(k)}, {lean_str(la)}, {lean_str(r)}⟩" for k, la, r in alts])
+    t += "/-- particles of the live pattern that are not `key` / `key(?![set])` (none expected; see `regex_particles_regular`) -/\n"
+    t += f"def htmlAltsIrregular : List (List Nat) := [{', '.join(lean_str(x) for x in irregular)}]\n"
     t += "end BS.Gen\n"
     yield "Formatter.lean", t
 
